@@ -117,6 +117,27 @@ def run_case(case):
                 if a != j or b != int(exp[o]):
                     return dict(status="violation", kind="index",
                                 detail=f"{where}: index_fn [{label}]({ref[j].tolist()}) = {a} (row {j}); ({infl[o].tolist()}) = {b} (nearest row {int(exp[o])})")
+        if k % 5 == 0:
+            # vectors held in narrower / unsigned integer dtypes (a state kept as int8, uint8, int16, uint16): every
+            # vector of the inflated box that the dtype can represent, through vmap
+            for dt in (np.int8, np.uint8, np.int16, np.uint16):
+                lo_, hi_ = np.iinfo(dt).min, np.iinfo(dt).max
+                fits = ((infl >= lo_) & (infl <= hi_)).all(axis=1)
+                if not fits.any():
+                    continue
+                sub = infl[fits].astype(dt)
+                try:
+                    got_dt = np.asarray(jax.vmap(index_fn)(jnp.asarray(sub)))
+                    one = int(index_fn(sub[0]))
+                except Exception as e:  # noqa: BLE001
+                    return dict(status="violation", kind="target-exception",
+                                detail=f"{where}: index_fn on {np.dtype(dt).name} vectors raised {type(e).__name__}: {str(e)[:150]}")
+                if not np.array_equal(got_dt, exp[fits]) or one != int(exp[fits][0]):
+                    i = int(np.argmax(got_dt != exp[fits])) if not np.array_equal(got_dt, exp[fits]) else 0
+                    return dict(status="violation", kind="index",
+                                detail=f"{where}: index_fn({sub[i].tolist()} as {np.dtype(dt).name}) = {int(got_dt[i])}, nearest box point "
+                                       f"{clipped[fits][i].tolist()} is row {int(exp[fits][i])}")
+                n_vec += int(fits.sum())
         n_box += 1
         n_vec += len(infl) + len(ref)
         if (mins != 0).any() or (maxs == mins).any():
